@@ -47,6 +47,7 @@ type c29QW struct {
 	id, user  int
 	cancel    context.CancelFunc
 	cancelled bool
+	cancelOp  int // op index at which the context was cancelled
 	state     atomic.Int32 // 0 pending, 1 Acquire returned nil, 2 Acquire returned an error
 }
 
@@ -192,7 +193,7 @@ func (h *c29QH) plan(op c29QOp, is *c29QIssue, start <-chan struct{}) {
 			}
 			w = pw[p%len(pw)]
 		}
-		w.cancelled = true
+		w.cancelled, w.cancelOp = true, h.opIdx
 		is.cancels++
 		is.acts = append(is.acts, func() { w.cancel() })
 	case "rel":
@@ -367,8 +368,8 @@ func (h *c29QH) step(op c29QOp) {
 	}
 	// classes
 	for _, w := range granted {
-		if w.cancelled {
-			h.cls["cancelled-waiter-got-grant"] = true
+		if w.cancelled && before[w.id] && w.cancelOp == h.opIdx {
+			h.cls["parked-waiter-cancelled-and-granted-in-one-step"] = true
 		}
 		if before[w.id] {
 			h.cls["grant-from-queue"] = true
@@ -443,9 +444,9 @@ func c29QGenSimple(t *rapid.T, nUsers int, inRace bool) c29QOp {
 	}
 	x := rapid.IntRange(0, hi).Draw(t, "kind")
 	switch {
-	case x < 38:
+	case x < 42:
 		return c29QOp{K: "acq", U: rapid.IntRange(0, nUsers-1).Draw(t, "user"), Dead: !inRace && rapid.IntRange(0, 11).Draw(t, "dead") == 0}
-	case x < 58:
+	case x < 60:
 		return c29QOp{K: "rel"}
 	case x < 72:
 		p := -1
@@ -476,12 +477,10 @@ func c29QGenSimple(t *rapid.T, nUsers int, inRace bool) c29QOp {
 
 func c29QGen() *rapid.Generator[c29QCase] {
 	return rapid.Custom(func(t *rapid.T) c29QCase {
-		c := c29QCase{Cap: rapid.SampledFrom([]int{1, 1, 2, 2, 3, 4}).Draw(t, "cap0")}
+		c := c29QCase{Cap: rapid.SampledFrom([]int{1, 1, 1, 2, 2, 3}).Draw(t, "cap0")}
 		nUsers := rapid.IntRange(1, 4).Draw(t, "users")
-		n := rapid.IntRange(1, 40).Draw(t, "nops")
-		for i := 0; i < n; i++ {
-			c.Ops = append(c.Ops, c29QGenSimple(t, nUsers, false))
-		}
+		opGen := rapid.Custom(func(t *rapid.T) c29QOp { return c29QGenSimple(t, nUsers, false) })
+		c.Ops = rapid.SliceOfN(opGen, 1, 40).Draw(t, "ops")
 		return c
 	})
 }
